@@ -338,7 +338,7 @@ def run(ctx):
         raise common.HarnessError("Telomere has no threading.Lock/RLock attribute to replace")
     _selfcheck(model)
     depth = 6 if ctx.tier == "quick" else 7
-    res = explore.explore(model, ctx, depth)
+    res = explore.explore(model, ctx, depth, validate_canon=200 if ctx.tier == "thorough" else 0)
     ctx.coverage.update(
         states=res["states"],
         transitions=res["transitions"],
